@@ -637,7 +637,7 @@ def gen_cases(rs, tier, routines=None):
         if r not in TAKES_CI or r == 'modularity_probtune_und_sign' or opt == 'custom':
             continue
         srcs = cross_sources(r, opt)
-        ntr = (3 if r in SIGN else 2) if not big else 25
+        ntr = (6 if r in SIGN else 3) if not big else 40
         for src in srcs:
             for g in CROSS_GAMMAS:
                 for _ in range(ntr):
